@@ -2043,25 +2043,49 @@ class C14(Prop):
             return None
         cases, want = [], {}
         for i in range(ctx.n(400, 4000) * budget_scale):
-            doc, text, spec, cur = gen_chain(g)
+            for _try in range(5):
+                doc, text, spec, cur = gen_chain(g)
+                if cur or r.random() < 0.15:
+                    break
             names = [r.choice(['twice', 'wrap', 'tn', 'fstr', 'fstr', 'id', 'id', 'fail'] if r.random() < 0.3 else ['twice', 'wrap', 'fstr', 'id'])
                      for _ in range(r.randint(1, 3))]
             calls, outs = [], []
-            for v in cur:
-                x = v
-                for nm in names:
-                    calls.append('F(%s,%s)' % (nm, core.doc_render(x)))
-                    x = apply(nm, x)
-                    if x is None:
-                        break
-                if x is not None:
-                    outs.append(x)
-            text += ''.join('.%s()' % nm for nm in names)
+            agg = r.choice(['cnt', 'first', 'arr', 'amax', 'amax', 'afail']) if r.random() < 0.4 else None
+            if agg:
+                # C14_aggregate_from_text: the aggregate first, called once with everything the steps reach (or with the
+                # elements of the single array a single-valued path reaches), not at all when they reach nothing
+                names = names[:r.randint(0, 2)]
+                vg = any(st[0] in (2, 3, 4, 5) or (st[0] == 6 and (len(st[1]) > 1 or st[1][0][0] != 'i')) for st in spec)
+                if cur:
+                    args = list(cur) if vg or cur[0][0] != 'a' else list(cur[0][1])
+                    calls.append('G(%s,[%s])' % (agg, ','.join(core.doc_render(a_) for a_ in args)))
+                    nums = [a_[1] for a_ in args if a_[0] == 'n']
+                    x = {'cnt': ('n', float(len(args))), 'first': args[0] if args else None, 'arr': ('a', args),
+                         'amax': ('n', max(nums)) if nums else None, 'afail': None}[agg]
+                    for nm in names:
+                        if x is None:
+                            break
+                        calls.append('F(%s,%s)' % (nm, core.doc_render(x)))
+                        x = apply(nm, x)
+                    if x is not None:
+                        outs.append(x)
+            else:
+                for v in cur:
+                    x = v
+                    for nm in names:
+                        calls.append('F(%s,%s)' % (nm, core.doc_render(x)))
+                        x = apply(nm, x)
+                        if x is None:
+                            break
+                    if x is not None:
+                        outs.append(x)
+            text += ''.join('.%s()' % nm for nm in ([agg] if agg else []) + names)
             regs = sorted(set(names) | ({r.choice(gens.FILTER_FUNCS)} if r.random() < 0.3 else set()))
-            c = Case('ft%d' % i, text.encode('utf-8'), [doc], regs, [r.choice(gens.AGG_FUNCS)] if r.random() < 0.2 else [], r.random() < 0.15,
-                     meta={'family': 'coq-chain-fun-path', 'nsteps': len(spec), 'fs': names})
+            aggs_ = sorted(({agg} if agg else set()) | ({r.choice(gens.AGG_FUNCS)} if r.random() < 0.2 else set()))
+            c = Case('ft%d' % i, text.encode('utf-8'), [doc], regs, aggs_, r.random() < 0.15,
+                     meta={'family': 'coq-chain-fun-path', 'nsteps': len(spec), 'fs': ([agg] if agg else []) + names})
             c.keyc = spec
-            c.keyf = [[ord(ch) for ch in nm] for nm in names]
+            c.keyf = [[ord(ch) for ch in nm] for nm in ([agg] if agg else []) + names]
             want[c.id] = (calls, outs, bool(cur))
             cases.append(c)
         go, mo = both_sides(cases)
